@@ -32,6 +32,7 @@ struct rcfg {
   int std_target;  /* 0 none; HANDLE/FILE targets are the parent's own std stream: 1 = stdout, 2 = stderr */
   int fileno_ebadf;/* bit i: fileno() of std stream i answers EBADF (the fclose case) */
   int nonblocking;
+  int closed_first; /* the descriptors are closed BEFORE the user's objects are opened: FILEs and handles land on 0-2 (a daemon that reopens its log) */
 };
 
 static int inherit_check(const char *prop, const struct vk_child *c, const struct ident_expect *ex)
@@ -73,12 +74,15 @@ static void c10_body(const struct rcfg *c)
   vk_cfg.vlimit = 64;
   static const char *const tn[] = { "default", "PIPE", "PARENT", "DISCARD", "STDOUT", "HANDLE", "FILE", "PATH" };
   static const char *const sh[] = { "-", "parent", "discard", "file", "path" };
-  snprintf(key, sizeof key, "h_c10|in=%s,out=%s,err=%s|shorthand=%s|closed=%d|stdtarget=%d|fileno_ebadf=%d", tn[c->t[0] < 0 ? 0 : c->t[0]], tn[c->t[1] < 0 ? 0 : c->t[1]],
-           tn[c->t[2] < 0 ? 0 : c->t[2]], sh[c->shorthand], c->closed, c->std_target, c->fileno_ebadf);
+  snprintf(key, sizeof key, "h_c10|in=%s,out=%s,err=%s|shorthand=%s|closed=%d|stdtarget=%d|fileno_ebadf=%d|closed_first=%d", tn[c->t[0] < 0 ? 0 : c->t[0]], tn[c->t[1] < 0 ? 0 : c->t[1]],
+           tn[c->t[2] < 0 ? 0 : c->t[2]], sh[c->shorthand], c->closed, c->std_target, c->fileno_ebadf, c->closed_first);
   hx_desc("%s", key);
-  snprintf(key, sizeof key, "h_c10|std-closed=%s|targets=%s%s", c->closed ? "some" : "none", c->std_target ? "parent-std-stream" : "user-objects",
-           c->fileno_ebadf ? "|fclosed" : "");
+  snprintf(key, sizeof key, "h_c10|std-closed=%s|targets=%s%s%s", c->closed ? "some" : "none", c->std_target ? "parent-std-stream" : "user-objects",
+           c->fileno_ebadf ? "|fclosed" : "", c->closed_first ? "|user-objects-on-0-2" : "");
   hx_begin();
+  if (c->closed_first)
+    for (int i = 0; i < 3; i++)
+      if (c->closed & (1 << i)) close(i);
 
   /* user objects first (so that they do not land on 0-2), then close what the configuration closes */
   reproc_options o;
@@ -101,6 +105,7 @@ static void c10_body(const struct rcfg *c)
       else {
         snprintf(name, sizeof name, "u-handle-%d", i);
         user_fd[i] = open(name, (i == 0 ? O_RDONLY : O_WRONLY) | O_CREAT, 0644);
+        if (user_fd[i] == 0) { user_fd[i] = fcntl(0, F_DUPFD, 1); close(0); } /* handle 0 means "not set" in the options */
         rd->handle = user_fd[i];
         ident_obj_from_fd(&ex.obj[i], user_fd[i]);
       }
@@ -137,12 +142,13 @@ static void c10_body(const struct rcfg *c)
     if (t == T_FILE && c->t[i] < 0) ident_obj_from_fd(&ex.obj[i], fileno(sh_file));
   }
   for (int i = 0; i < 3; i++)
-    if (c->closed & (1 << i)) close(i);
+    if ((c->closed & (1 << i)) && !c->closed_first) close(i);
   /* the fclose() case: fileno() of that stream answers EBADF from now on, and its descriptor is gone too */
   for (int i = 0; i < 3; i++)
     if (c->fileno_ebadf & (1 << i)) fclose(i == 0 ? stdin : i == 1 ? stdout : stderr);
   for (int i = 0; i < 3; i++) {
     if (ex.type[i] != T_PARENT) continue;
+    if (c->closed_first) { ident_obj_from_fd(&ex.obj[i], i); continue; } /* whatever sits on that number now is the parent's stream */
     if ((c->closed & (1 << i)) || (c->fileno_ebadf & (1 << i))) ex.obj[i].valid = 0; /* the parent has no such stream: the null device */
     else ex.obj[i] = parent_obj[i];
   }
@@ -246,6 +252,22 @@ static void c10_build(void)
     store[n++] = c3;
     struct rcfg c4 = { { -1, -1, -1 }, 0, 0, 0, m, 0 };
     store[n++] = c4;
+  }
+  /* fourth pass: descriptors closed first, so that the user's FILEs and handles sit on 0-2 themselves */
+  for (int ci = 0; ci < 4; ci++)
+    for (int a = 0; a < 6; a++)
+      for (int b = 0; b < 6; b++)
+        for (int e = 0; e < 7; e++) {
+          static const int cl[4] = { 1, 3, 5, 7 };
+          int ta = types6[a], tb = types6[b], te = types7[e];
+          if (!(ta == T_FILE || tb == T_FILE || te == T_FILE || ta == T_HANDLE || tb == T_HANDLE || te == T_HANDLE)) continue;
+          struct rcfg c = { { ta, tb, te }, 0, cl[ci], 0, 0, 0, 1 };
+          store[n++] = c;
+        }
+  for (int ci = 0; ci < 4; ci++) {
+    static const int cl[4] = { 1, 3, 5, 7 };
+    struct rcfg c = { { -1, -1, -1 }, 3, cl[ci], 0, 0, 0, 1 };
+    store[n++] = c;
   }
   c10_count[0] = n;
   /* thorough: nonblocking on as well, first pass with nothing closed and everything closed */
